@@ -118,7 +118,9 @@ func TestC03Histories(t *testing.T) {
 			if thorough {
 				max = 40
 			}
-			c := Case{Start: gen.Tree(t, startOpts(thorough)), Indexed: rapid.Bool().Draw(t, "indexed"), ViaAPI: rapid.Bool().Draw(t, "api")}
+			so := startOpts(thorough)
+			so.Comments = rapid.IntRange(0, 2).Draw(t, "comments") == 0 // node / root / branch comments must follow their node and branch through every edit
+			c := Case{Start: gen.Tree(t, so), Indexed: rapid.Bool().Draw(t, "indexed"), ViaAPI: rapid.Bool().Draw(t, "api")}
 			c.Ops = rapid.SliceOfN(rapid.Custom(func(t *rapid.T) ops.Op { return ops.GenOp(t, ops.Kinds) }), 1, max).Draw(t, "ops")
 			return c
 		},
